@@ -117,6 +117,8 @@ RunMism(r, o, fam) ==
   \cup (IF r.v = "ok" /\ o.v = "ok" THEN LayersMism(r, o, fam) \cup PayMism(r.pay, o.pay, "pay") \cup ConvMism(o) ELSE {})
   \* to_header() / to_packet() of a layer's slice holds the values its accessors report
   \cup (IF o.v = "ok" THEN {"c04.to_header." \o o.tohdr[i] : i \in 1..Len(o.tohdr)} ELSE {})
+  \* the returned error converted by the conversions the crate offers (catch-all FromSliceError read back through its accessors): still the same report
+  \cup (IF o.v = "panic" THEN {} ELSE {"c07.err_conversion." \o o.econv[i] : i \in 1..Len(o.econv)})
   \cup (IF o.v # "panic" /\ r.v = o.v THEN ErrMism(r, o) ELSE {})
 
 \* ---------------------------------------------------------------------------
